@@ -453,56 +453,128 @@ theorem print_head_ne (extra : Expr → Bool) (e : Expr) (Y : List Tok) :
   obtain ⟨t, ts, h1, h2⟩ := print_head extra e
   rw [h1]; simp [h2]
 
-/-- the statement proved by induction on the expression -/
-def KProp (extra : Expr → Bool) (M : Nat) (e : Expr) : Prop :=
-  ∀ d m X r, m ≤ topBp e → StopAbove e X → d + framesWith extra e ≤ M →
-    Loops M (d+1) m e X r → Parses M d m (printWith extra e ++ X) r
+/-! ### the same machinery for arbitrary (non-"out of fuel") outcomes, errors included -/
+
+def ParsesR (M d m : Nat) (ts : List Tok) (res : PRes) : Prop :=
+  res ≠ .error .fuel ∧ ∃ f, parseBpN M f d m ts = res
+def PrefixR (M d : Nat) (ts : List Tok) (res : PRes) : Prop :=
+  res ≠ .error .fuel ∧ ∃ f, parsePrefixN M f d ts = res
+def LoopsR (M d m : Nat) (l : Expr) (ts : List Tok) (res : PRes) : Prop :=
+  res ≠ .error .fuel ∧ ∃ f, ploopN M f d m l ts = res
+
+theorem res_mono_bp {M f g d m ts res} (h : f ≤ g) (hn : res ≠ .error .fuel)
+    (e : parseBpN M f d m ts = res) : parseBpN M g d m ts = res := by
+  rw [(mono_le M h).1 d m ts (by rw [e]; exact hn), e]
+theorem res_mono_loop {M f g d m l ts res} (h : f ≤ g) (hn : res ≠ .error .fuel)
+    (e : ploopN M f d m l ts = res) : ploopN M g d m l ts = res := by
+  rw [(mono_le M h).2.2 d m l ts (by rw [e]; exact hn), e]
+
+theorem loopsR_of_loops {M d m l ts r} (h : Loops M d m l ts r) : LoopsR M d m l ts (.ok r) :=
+  ⟨by simp, h⟩
+theorem parses_of_parsesR {M d m ts r} (h : ParsesR M d m ts (.ok r)) : Parses M d m ts r := h.2
+
+theorem parsesR_of {M d m ts lhs rest res} (hd : d + 1 ≤ M) (hp : PrefixP M (d+1) ts (lhs, rest))
+    (hl : LoopsR M (d+1) m lhs rest res) : ParsesR M d m ts res := by
+  obtain ⟨f1, h1⟩ := hp
+  obtain ⟨hn, f2, h2⟩ := hl
+  refine ⟨hn, max f1 f2 + 1, ?_⟩
+  simp only [parseBpN]
+  have hd' : ¬ d + 1 > M := by omega
+  simp only [hd', if_false]
+  rw [ok_mono_prefix (Nat.le_max_left f1 f2) h1]
+  exact res_mono_loop (Nat.le_max_right f1 f2) hn h2
+
+theorem parsesR_prefix_err {M d m ts e} (hd : d + 1 ≤ M) (hp : PrefixR M (d+1) ts (.error e)) :
+    ParsesR M d m ts (.error e) := by
+  obtain ⟨hn, f, h⟩ := hp
+  refine ⟨hn, f + 1, ?_⟩
+  have hd' : ¬ d + 1 > M := by omega
+  simp only [parseBpN, hd', if_false, h]
+
+theorem parsesR_deep {M d m ts} (h : M ≤ d) : ParsesR M d m ts (.error (.tooDeep ts.length)) := by
+  refine ⟨by simp, 1, ?_⟩
+  have : d + 1 > M := by omega
+  simp only [parseBpN, this, if_true]
+
+theorem loopsR_op {M d m o lhs rhs rest rest' res} (hk : ¬ lbp o < m)
+    (hp : Parses M d (rbp o) rest (rhs, rest')) (hl : LoopsR M d m (.bin lhs o rhs) rest' res) :
+    LoopsR M d m lhs (Tok.op o :: rest) res := by
+  obtain ⟨f1, h1⟩ := hp
+  obtain ⟨hn, f2, h2⟩ := hl
+  refine ⟨hn, max f1 f2 + 1, ?_⟩
+  simp only [ploopN, binaryOf, hk, if_false]
+  rw [ok_mono_bp (Nat.le_max_left f1 f2) h1]
+  exact res_mono_loop (Nat.le_max_right f1 f2) hn h2
+
+theorem loopsR_op_err {M d m o lhs rest e} (hk : ¬ lbp o < m)
+    (hp : ParsesR M d (rbp o) rest (.error e)) : LoopsR M d m lhs (Tok.op o :: rest) (.error e) := by
+  obtain ⟨hn, f, h⟩ := hp
+  refine ⟨hn, f + 1, ?_⟩
+  simp only [ploopN, binaryOf, hk, if_false, h]
+
+theorem prefixR_paren_err {M d e rest} (hh : rest.head? ≠ some Tok.rparen)
+    (h : ParsesR M d 0 rest (.error e)) : PrefixR M d (Tok.lparen :: rest) (.error e) := by
+  obtain ⟨hn, f, hf⟩ := h
+  exact ⟨hn, f+1, by simp [parsePrefixN, prefixArm, hh, hf]⟩
+
+theorem prefixR_unary_err {M d u e rest} (h : ParsesR M d PREFIX_BP rest (.error e)) :
+    PrefixR M d (unTok u :: rest) (.error e) := by
+  obtain ⟨hn, f, hf⟩ := h
+  exact ⟨hn, f+1, by simp [parsePrefixN, prefixArm_unTok, hf]⟩
 
 theorem frames_pos (extra : Expr → Bool) (e : Expr) : 1 ≤ framesWith extra e := by
   cases e <;> simp only [framesWith] <;> omega
 
+/-- The statement proved by induction on the expression: a frame entered at depth `d` with
+    `min_bp = m` that finds `print e ++ X` parses `e` and then behaves exactly like its own loop
+    started with `lhs = e` on `X` — whatever that loop's outcome `res` is (a tree or an error). -/
+def KPropR (extra : Expr → Bool) (M : Nat) (e : Expr) : Prop :=
+  ∀ d m X res, m ≤ topBp e → StopAbove e X → d + framesWith extra e ≤ M →
+    LoopsR M (d+1) m e X res → ParsesR M d m (printWith extra e ++ X) res
+
 /-- an operand `x`, parenthesised iff `b`, parsed by a fresh frame at `min_bp = m'` -/
-theorem operand {extra M x} (ih : KProp extra M x) (b : Bool) (d' m' : Nat) (X : List Tok) (r)
+theorem operandR {extra M x} (ih : KPropR extra M x) (b : Bool) (d' m' : Nat) (X : List Tok) (res)
     (hb : b = true ∨ m' ≤ topBp x) (hsa : b = false → StopAbove x X)
     (hd : d' + (if b then 1 + framesWith extra x else framesWith extra x) ≤ M)
-    (hl : Loops M (d'+1) m' x X r) :
-    Parses M d' m' (wrap b (printWith extra x) ++ X) r := by
+    (hl : LoopsR M (d'+1) m' x X res) :
+    ParsesR M d' m' (wrap b (printWith extra x) ++ X) res := by
   have hpos := frames_pos extra x
   cases b with
   | true =>
     simp only [if_true] at hd
     rw [wrap_true]
     have hin : Parses M (d'+1) 0 (printWith extra x ++ Tok.rparen :: X) (x, Tok.rparen :: X) :=
-      ih (d'+1) 0 _ _ (Nat.zero_le _) (by cases x <;> simp [StopAbove, headStops]) (by omega)
-        (loops_stop (by simp [headStops]))
-    exact parses_of (by omega) (prefix_paren (print_head_ne extra x _) hin) hl
+      parses_of_parsesR (ih (d'+1) 0 _ _ (Nat.zero_le _) (by cases x <;> simp [StopAbove, headStops])
+        (by omega) (loopsR_of_loops (loops_stop (by simp [headStops]))))
+    exact parsesR_of (by omega) (prefix_paren (print_head_ne extra x _) hin) hl
   | false =>
     simp only [Bool.false_eq_true, if_false] at hd
     rw [wrap_false]
     cases hb with
     | inl h => cases h
-    | inr h => exact ih d' m' X r h (hsa rfl) hd hl
+    | inr h => exact ih d' m' X res h (hsa rfl) hd hl
 
-theorem K (extra : Expr → Bool) (M : Nat) (e : Expr) : KProp extra M e := by
+theorem KR (extra : Expr → Bool) (M : Nat) (e : Expr) : KPropR extra M e := by
   induction e with
   | atom n =>
-    intro d m X r _ _ hd hl
+    intro d m X res _ _ hd hl
     simp only [framesWith] at hd
-    exact parses_of (by omega) prefix_atom hl
+    exact parsesR_of (by omega) prefix_atom hl
   | wildcard =>
-    intro d m X r _ _ hd hl
+    intro d m X res _ _ hd hl
     simp only [framesWith] at hd
-    exact parses_of (by omega) prefix_wild hl
+    exact parsesR_of (by omega) prefix_wild hl
   | unit =>
-    intro d m X r _ _ hd hl
+    intro d m X res _ _ hd hl
     simp only [framesWith] at hd
-    exact parses_of (by omega) prefix_unit hl
+    exact parsesR_of (by omega) prefix_unit hl
   | un u x ihx =>
-    intro d m X r _ _ hd hl
+    intro d m X res _ _ hd hl
     simp only [framesWith] at hd
     have hO : Parses M (d+1) PREFIX_BP
         (wrap (extra x || decide (topBp x < PREFIX_BP)) (printWith extra x) ++ X) (x, X) := by
-      refine operand ihx _ (d+1) PREFIX_BP X (x, X) ?_ ?_ (by omega) (loops_stop (headStops_prefix X))
+      refine parses_of_parsesR (operandR ihx _ (d+1) PREFIX_BP X (.ok (x, X)) ?_ ?_ (by omega)
+        (loopsR_of_loops (loops_stop (headStops_prefix X))))
       · cases hb : (extra x || decide (topBp x < PREFIX_BP)) with
         | true => exact Or.inl rfl
         | false =>
@@ -516,15 +588,16 @@ theorem K (extra : Expr → Bool) (M : Nat) (e : Expr) : KProp extra M e := by
     have hpos := frames_pos extra x
     have : d + 1 ≤ M := by
       cases hb : (extra x || decide (topBp x < PREFIX_BP)) <;> simp only [hb] at hd <;> simp at hd <;> omega
-    exact parses_of this (prefix_unary hO) hl
+    exact parsesR_of this (prefix_unary hO) hl
   | bin l o r0 ihl ihr =>
-    intro d m X r hm hs hd hl
+    intro d m X res hm hs hd hl
     simp only [topBp] at hm
     simp only [StopAbove] at hs
     simp only [framesWith] at hd
     have hR : Parses M (d+1) (rbp o)
         (wrap (extra r0 || decide (topBp r0 < rbp o)) (printWith extra r0) ++ X) (r0, X) := by
-      refine operand ihr _ (d+1) (rbp o) X (r0, X) ?_ ?_ (by omega) (loops_stop hs)
+      refine parses_of_parsesR (operandR ihr _ (d+1) (rbp o) X (.ok (r0, X)) ?_ ?_ (by omega)
+        (loopsR_of_loops (loops_stop hs)))
       · cases hb : (extra r0 || decide (topBp r0 < rbp o)) with
         | true => exact Or.inl rfl
         | false =>
@@ -537,10 +610,10 @@ theorem K (extra : Expr → Bool) (M : Nat) (e : Expr) : KProp extra M e := by
           simp only [StopAbove, topBp] at *
           exact headStops_mono (by have := rbp_eq o2; omega) hs
         | _ => trivial
-    have hL : Loops M (d+1) m l
-        (Tok.op o :: (wrap (extra r0 || decide (topBp r0 < rbp o)) (printWith extra r0) ++ X)) r :=
-      loops_op (by omega) hR hl
-    have := operand ihl (extra l || decide (topBp l < lbp o)) d m _ r ?_ ?_ (by omega) hL
+    have hL : LoopsR M (d+1) m l
+        (Tok.op o :: (wrap (extra r0 || decide (topBp r0 < rbp o)) (printWith extra r0) ++ X)) res :=
+      loopsR_op (by omega) hR hl
+    have := operandR ihl (extra l || decide (topBp l < lbp o)) d m _ res ?_ ?_ (by omega) hL
     · simpa [printWith, List.append_assoc] using this
     · cases hb : (extra l || decide (topBp l < lbp o)) with
       | true => exact Or.inl rfl
@@ -554,6 +627,112 @@ theorem K (extra : Expr → Bool) (M : Nat) (e : Expr) : KProp extra M e := by
         simp only [StopAbove, headStops, topBp] at *
         have := rbp_eq o1; omega
       | _ => trivial
+
+/-- the success instance used by the round-trip theorems -/
+def KProp (extra : Expr → Bool) (M : Nat) (e : Expr) : Prop :=
+  ∀ d m X r, m ≤ topBp e → StopAbove e X → d + framesWith extra e ≤ M →
+    Loops M (d+1) m e X r → Parses M d m (printWith extra e ++ X) r
+
+theorem K (extra : Expr → Bool) (M : Nat) (e : Expr) : KProp extra M e :=
+  fun d m X r hm hs hd hl => parses_of_parsesR (KR extra M e d m X (.ok r) hm hs hd (loopsR_of_loops hl))
+
+/-! ### exactness of the depth accounting: one frame too many is `TooDeep` -/
+
+def TDProp (extra : Expr → Bool) (M : Nat) (e : Expr) : Prop :=
+  ∀ d m X, m ≤ topBp e → d ≤ M → M < d + framesWith extra e →
+    ∃ k, ParsesR M d m (printWith extra e ++ X) (.error (.tooDeep k))
+
+theorem operand_td {extra M x} (ih : TDProp extra M x) (b : Bool) (d' m' : Nat) (X : List Tok)
+    (hb : b = true ∨ m' ≤ topBp x) (hd : d' ≤ M)
+    (hM : M < d' + (if b then 1 + framesWith extra x else framesWith extra x)) :
+    ∃ k, ParsesR M d' m' (wrap b (printWith extra x) ++ X) (.error (.tooDeep k)) := by
+  cases b with
+  | true =>
+    simp only [if_true] at hM
+    rw [wrap_true]
+    by_cases hdM : d' = M
+    · exact ⟨_, parsesR_deep (by omega)⟩
+    · obtain ⟨k, hk⟩ := ih (d'+1) 0 (Tok.rparen :: X) (Nat.zero_le _) (by omega) (by omega)
+      exact ⟨k, parsesR_prefix_err (by omega) (prefixR_paren_err (print_head_ne extra x _) hk)⟩
+  | false =>
+    simp only [Bool.false_eq_true, if_false] at hM
+    rw [wrap_false]
+    cases hb with
+    | inl h => cases h
+    | inr h => exact ih d' m' X h hd hM
+
+theorem TD (extra : Expr → Bool) (M : Nat) (e : Expr) : TDProp extra M e := by
+  induction e with
+  | atom n =>
+    intro d m X _ hd hM
+    simp only [framesWith] at hM
+    exact ⟨_, parsesR_deep (by omega)⟩
+  | wildcard =>
+    intro d m X _ hd hM
+    simp only [framesWith] at hM
+    exact ⟨_, parsesR_deep (by omega)⟩
+  | unit =>
+    intro d m X _ hd hM
+    simp only [framesWith] at hM
+    exact ⟨_, parsesR_deep (by omega)⟩
+  | un u x ihx =>
+    intro d m X _ hd hM
+    simp only [framesWith] at hM
+    by_cases hdM : d = M
+    · exact ⟨_, parsesR_deep (by omega)⟩
+    · obtain ⟨k, hk⟩ := operand_td ihx (extra x || decide (topBp x < PREFIX_BP)) (d+1) PREFIX_BP X
+        (by
+          cases hb : (extra x || decide (topBp x < PREFIX_BP)) with
+          | true => exact Or.inl rfl
+          | false =>
+            simp only [Bool.or_eq_false_iff, decide_eq_false_iff_not] at hb
+            exact Or.inr (by omega))
+        (by omega) (by omega)
+      refine ⟨k, ?_⟩
+      have := parsesR_prefix_err (m := m) (show d + 1 ≤ M by omega) (prefixR_unary_err (u := u) hk)
+      simpa [printWith] using this
+  | bin l o r0 ihl ihr =>
+    intro d m X hm hd hM
+    simp only [topBp] at hm
+    simp only [framesWith] at hM
+    by_cases hdM : d = M
+    · exact ⟨_, parsesR_deep (by omega)⟩
+    · -- the printed text is `wrap bl (print l) ++ Y`
+      have hsplit : printWith extra (.bin l o r0) ++ X =
+          wrap (extra l || decide (topBp l < lbp o)) (printWith extra l) ++
+            (Tok.op o :: (wrap (extra r0 || decide (topBp r0 < rbp o)) (printWith extra r0) ++ X)) := by
+        simp [printWith, List.append_assoc]
+      rw [hsplit]
+      have hbl : (extra l || decide (topBp l < lbp o)) = true ∨ m ≤ topBp l := by
+        cases hb : (extra l || decide (topBp l < lbp o)) with
+        | true => exact Or.inl rfl
+        | false =>
+          simp only [Bool.or_eq_false_iff, decide_eq_false_iff_not] at hb
+          exact Or.inr (by omega)
+      by_cases hL : M < d + (if (extra l || decide (topBp l < lbp o)) then 1 + framesWith extra l
+          else framesWith extra l)
+      · -- the left operand alone is already too deep
+        exact operand_td ihl _ d m _ hbl hd hL
+      · -- the left operand parses; the right operand's frame is too deep
+        obtain ⟨k, hk⟩ := operand_td ihr (extra r0 || decide (topBp r0 < rbp o)) (d+1) (rbp o) X
+          (by
+            cases hb : (extra r0 || decide (topBp r0 < rbp o)) with
+            | true => exact Or.inl rfl
+            | false =>
+              simp only [Bool.or_eq_false_iff, decide_eq_false_iff_not] at hb
+              exact Or.inr (by omega))
+          (by omega) (by omega)
+        have hLoop : LoopsR M (d+1) m l
+            (Tok.op o :: (wrap (extra r0 || decide (topBp r0 < rbp o)) (printWith extra r0) ++ X))
+            (.error (.tooDeep k)) := loopsR_op_err (by omega) hk
+        refine ⟨k, operandR (KR extra M l) _ d m _ _ hbl ?_ (by omega) hLoop⟩
+        intro hb
+        simp only [Bool.or_eq_false_iff, decide_eq_false_iff_not] at hb
+        cases l with
+        | bin a o1 b =>
+          simp only [StopAbove, headStops, topBp] at *
+          have := rbp_eq o1; omega
+        | _ => trivial
 
 /-! ### depth accounting -/
 
